@@ -1,0 +1,94 @@
+//go:build verif
+
+package network
+
+import (
+	"context"
+	"sync"
+	"sync/atomic"
+
+	"github.com/bronlabs/bron-crypto/pkg/mpc/sharing"
+)
+
+// Verification hooks of the router (build tag verif only). With the tag off
+// router_noverif.go provides empty methods and the hooks compile to nothing.
+//
+// VerifTraceHook, when non-nil, is called inside every critical section of
+// routerCore (after the state change, before Unlock) with a per-core sequence
+// number and a cheap projection of the state. VerifGateHook, when non-nil, is
+// called immediately before every c.mu.Lock() of receiveFrom / deposit / fail
+// and before the select of receiveFrom; a harness may block there to impose a
+// schedule. Both must be set before the first router is created.
+var (
+	VerifTraceHook func(core any, ctx context.Context, st VerifState)
+	VerifGateHook  func(core any, ctx context.Context, gate string)
+)
+
+// VerifState is the projection logged by a trace hook. The box fields describe
+// the mailbox of Cid at the moment of the call (zero values when Cid is empty
+// or the mailbox does not exist).
+type VerifState struct {
+	Seq      uint64
+	Ev       string
+	Cid      string
+	From     sharing.ID
+	Payload  []byte
+	Buffered int
+	NBoxes   int
+	Started  bool
+	Fatal    error
+	Exists   bool
+	Present  map[sharing.ID][]byte
+	Poison   error
+	Notify   bool
+	Token    bool
+}
+
+var verifSeqs sync.Map // *routerCore -> *atomic.Uint64
+
+func verifSeqOf(c *routerCore) *atomic.Uint64 {
+	if v, ok := verifSeqs.Load(c); ok {
+		return v.(*atomic.Uint64)
+	}
+	v, _ := verifSeqs.LoadOrStore(c, new(atomic.Uint64))
+	return v.(*atomic.Uint64)
+}
+
+// VerifCoreOf returns the identity under which the hooks report the router.
+func VerifCoreOf(r *Router) any { return r.core }
+
+// VerifSeq returns the number of trace events the router has emitted so far.
+func VerifSeq(r *Router) uint64 { return verifSeqOf(r.core).Load() }
+
+// VerifForget drops the bookkeeping of a router that is no longer used.
+func VerifForget(r *Router) { verifSeqs.Delete(r.core) }
+
+// verifTrace must be called with c.mu held.
+func (c *routerCore) verifTrace(ctx context.Context, ev, cid string, from sharing.ID, payload []byte) {
+	hook := VerifTraceHook
+	if hook == nil {
+		return
+	}
+	st := VerifState{
+		Seq: verifSeqOf(c).Add(1), Ev: ev, Cid: cid, From: from, Payload: payload,
+		Buffered: c.buffered, NBoxes: len(c.boxes), Started: c.started, Fatal: c.fatal,
+	}
+	if box, ok := c.boxes[cid]; ok && cid != "" {
+		st.Exists = true
+		st.Present = make(map[sharing.ID][]byte, len(box.payloads))
+		for id, p := range box.payloads {
+			st.Present[id] = p
+		}
+		st.Poison = box.poison
+		st.Notify = box.notify != nil
+		st.Token = len(box.notify) > 0
+	}
+	hook(c, ctx, st)
+}
+
+// verifGate must be called without c.mu held.
+func (c *routerCore) verifGate(ctx context.Context, gate string) {
+	if hook := VerifGateHook; hook != nil {
+		hook(c, ctx, gate)
+	}
+}
